@@ -39,7 +39,7 @@ def run(ctx: Ctx) -> Result:
     maxlen = ctx.n(4, 6)
     for it in range(ctx.n(30, 300)):
         root = V.rbytes(rng, 32); rootk = bytes(SigningKey(root).verify_key)
-        flags = rng.choice(['00', '00', '01'])
+        flags = rng.choice(['00', '00', '01', '80', '%02x' % (1 << rng.randrange(8))])
         sf = {'sigfield1': V.rbytes(rng, 5), 'sigfield2': V.rbytes(rng, 7)}
         lock1 = try_build(T.make_delegate_key_lock, rootk, flags); lockc = try_build(T.make_delegate_key_chain_lock, rootk, flags)
         B.build(f'BUILD2 delegate_key_lock {rootk.hex()} {int(flags, 16)}', hexof(lock1))
@@ -117,6 +117,22 @@ def run(ctx: Ctx) -> Result:
         wforeign = T.make_delegate_key_chain_witness(seeds[-1], list(reversed(foreign)), sf, flags)
         ok, v = B.auth([squat + wforeign.bytes, lockc.bytes], cache)
         if ok: B.viol('chain rooted in a different root key accepted behind a witness-defined function 0', {'root_seed': root.hex(), 'chain_length': n, 'scripts': [(squat + wforeign.bytes).hex(), lockc.bytes.hex()], 'cache': vmrun.cache_str(cache, False)}, False, v)
+        # the final signature may exclude exactly the sigfields the lock's flags allow: a signature made with any other flag bit
+        # (which would leave a sigfield unsigned) is refused by both locks
+        lf = int(flags, 16)
+        for bit in range(8):
+            wf = '%02x' % (lf | (1 << bit))
+            if int(wf, 16) == lf: continue
+            try:
+                wbad = T.make_delegate_key_chain_witness(seeds[-1], list(reversed(certs)), sf, wf)
+                w1bad = T.make_delegate_key_witness(seeds[0], certs[0], sf, wf) if n == 1 else None
+            except BaseException: continue
+            res.note_case((root, tuple(seeds), 'unpermitted-flag', wf))
+            ok, v = B.auth([wbad.bytes, lockc.bytes], cache)
+            if ok: B.viol(f'chain lock with flags {flags} accepts a final signature flagged {wf}', {'root_seed': root.hex(), 'chain_length': n, 'scripts': [wbad.bytes.hex(), lockc.bytes.hex()], 'cache': vmrun.cache_str(cache, False)}, False, v)
+            if w1bad is not None:
+                ok, v = B.auth([w1bad.bytes, lock1.bytes], cache)
+                if ok: B.viol(f'delegate-key lock with flags {flags} accepts a final signature flagged {wf}', {'root_seed': root.hex(), 'scripts': [w1bad.bytes.hex(), lock1.bytes.hex()], 'cache': vmrun.cache_str(cache, False)}, False, v)
         # terminal cert holder tries to delegate further
         if n >= 2:
             term = [T.make_delegate_key_cert(([root] + seeds[:-1])[j], pks[j], begin, end, j != 0) for j in range(n)]
